@@ -4,7 +4,8 @@ Deciding oracles work on the rendered OUTPUT alone: the tag is rendered between 
 engine and compared with vlib/c15_util.predict (missing -> null -> fmt= -> C format -> the modifiers,
 each once, in ONE order -> size/etc; written from the DT_Var docstring and the statement; the same
 pipeline whatever the number of options, the spelling of the tag, the C format and the type of the value:
-part_optcount, part_nulltower), and every
+part_optcount, part_nulltower; the same pipeline whatever block encloses the tag and whatever the compiled
+template rendered before: part_blocks, judged against the model and against the tag rendered alone), and every
 written order of a modifier set must print what the canonical order prints (all ordered pairs on values
 where the two stages do not commute, all orders of subsets <= 4, seeded larger ones); url round trips,
 the sql_quote postcondition and the truncation clauses besides.
@@ -39,7 +40,21 @@ RULE = ('one dtml-var tag per case, rendered by the engine and predicted by an i
         'subclasses, a user-defined quantity equal to 0), on every kind of empty / false non-number (str and '
         'str subclass, bytes, bytearray, list, tuple, dict, set, frozenset, range, objects false by __len__ '
         'or __bool__) and on non-zero neighbours, each followed by fmt= / C format / modifiers / size; '
-        'missing= on defined but false / null / zero values; the value pool includes that tower; distinct = distinct (syntax, name form, written option list, value, C format); '
+        'missing= on defined but false / null / zero values; the value pool includes that tower; '
+        'ENCLOSING BLOCKS: 19 tags (missing= / null= / both in both orders / valueless / with modifiers, fmt=, size, '
+        'url; the two fast forms) written inside each of 65 block wrappers (if / elif / else / unless on the SAME '
+        'name as a plain name, name=, on other names defined / false / undefined, on expressions; two and three '
+        'nesting levels; the tag before, after and in two blocks; in over one / two / no items, over mapping items, '
+        'over the name itself; with on a mapping / an empty mapping / an instance / only / the name itself; let binding '
+        'another name, the name from another name or expression, the name from itself; try body / handler / named '
+        'handler / else / finally body / a handler after a failed lookup of the name; a template called by name from '
+        'the block), each in the dtml, ssi and %(if x)[ syntaxes, namespace given as mapping / keywords / client '
+        'object; every compiled wrapper rendered over a seeded order of all states of the name: undefined (at the '
+        'start, in the middle, at the end), None, every false / null / zero kind, values, callables returning them; '
+        'each render compared with the model AND with the same tag rendered alone on the same value (thorough: plus '
+        'the missing= / null= text x option grid and 120000 seeded random tags in random wrappers); '
+        'distinct = distinct (syntax, name form, written option list, value, C format) and, for the block part, '
+        '(wrapper, syntax, namespace form, source, state); '
         'non-trivial = the demanded text differs from the plain str() of the value (an option is '
         'effective) or a missing=/null= replacement happens')
 ASSUMPTIONS = [
@@ -56,6 +71,12 @@ ASSUMPTIONS = [
     'non-ASCII bytes (C19), TaintedString (C04), restructured-text',
     'structured-text: only its position in the pipeline is judged (stage result taken from the '
     'engine function itself)',
+    'the text of a tag is a function of the tag and of the value bound to its name: it must not depend on the '
+    'block the tag stands in nor on earlier renders of the compiled template; which branch of a conditional is '
+    'rendered is NOT judged here (wrappers carry the tag in every alternative, or the alternative text is accepted); '
+    'the number of renders of an in body is taken as the number of items (else section for no items)',
+    'a callable bound to the name is called without arguments when the tag reads the name (TemplateDict.getitem '
+    'docstring) and its result is the value; what expr= sees of a callable is not judged',
     '"false but not 0" is read with Python truth and equality: v is null iff v is None or (not v and '
     'v != 0); so every numeric zero (Decimal, Fraction, complex, subclasses, an object whose __eq__ says '
     'it equals 0) is a value, every empty container / false object not equal to 0 is null; bool null-ness '
@@ -267,6 +288,8 @@ class Env:
         self.order = None
         self.order_source = None
         self.nsamples = 0
+        self.bsamples = 0
+        self.alone = {}
         self.watch = StageWatch(self.trace)
         self.install()
         self.selfcheck_model()
@@ -592,6 +615,137 @@ class Env:
             ctx.sample({'source': src, 'x': repr(ns['x']) if 'x' in ns else '(undefined)', 'output': out, 'model': pred.text,
                         'stage trace': names})
         return out if exc is None else ('!', type(exc).__name__)
+
+    # -- the tag inside enclosing blocks ---------------------------------
+    def standalone(self, case, state):
+        """The same tag alone in a template, same value: judged by the pipeline model as every other
+        case, and the text the tag must also print inside any block."""
+        c = dict(case, value=state)
+        c.pop('block', None)
+        key = (U.source(c), c['syntax'] == 'epfs', repr(state))
+        if key not in self.alone:
+            if len(self.alone) > 20000:
+                self.alone.clear()
+            self.alone[key] = self.evaluate(c, 'block-standalone')
+        return self.alone[key]
+
+    def compile_block(self, case):
+        from DocumentTemplate.DT_HTML import HTML
+        from DocumentTemplate.DT_String import String
+        b = case['block']
+        tagsrc = U.source(case)
+        cls = String if b['wsyntax'] == 'epfs' else HTML
+        src = U.block_source(b['wrap'], b['wsyntax'], tagsrc, 'x')
+        is_sub = U.block_info(b['wrap'])[1] == 'sub'
+        key = ('block', cls is String, src, tagsrc if is_sub else None)
+        t = self.cache.get(key)
+        if t is None:
+            if len(self.cache) > 30000:
+                self.cache.clear()
+            tmpl = cls(src)
+            tmpl.cook()
+            sub = None
+            if is_sub:
+                sub = cls(tagsrc)
+            t = self.cache[key] = (tmpl, sub)
+            self.ctx.count('templates compiled')
+        return src, t[0], t[1]
+
+    def block_history(self, case):
+        """Render ONE compiled block template over case['block']['states'] in that order; judge every
+        render against the pipeline model and against the same tag rendered alone."""
+        ctx = self.ctx
+        b = case['block']
+        key, wsyn, supply = b['wrap'], b['wsyntax'], b['supply']
+        family, place, n, alt, needs = U.block_info(key)
+        try:
+            src, tmpl, sub = self.compile_block(case)
+        except Exception as e:
+            ctx.case(('block', key, wsyn, U.source(case)), True)
+            ctx.violation('valid dtml-var tag inside a %s block did not compile: %s: %s'
+                          % (family, type(e).__name__, str(e)[:160]), case, key='block_compile_%s' % family)
+            return
+        optnames = [o[0] for o in case['opts']]
+        for idx, state in enumerate(b['states']):
+            defined = state[0] != 'undefined'
+            if not U.block_admits(needs, state):
+                continue
+            if state[0] == 'call' and case['form'] != 'name':
+                # what an expression sees of a callable bound to the name (the callable or its result)
+                # is not this property's business
+                ctx.count('blocks:not judged (callable read through expr=)')
+                continue
+            c = dict(case, value=state)
+            alone = self.standalone(c, state)
+            ns = U.block_namespace(place, defined, U.build(state) if defined else None, 'x', sub)
+            self.watch.reset()
+            exc = raw = None
+            try:
+                if supply == 'kw':
+                    raw = tmpl(**ns)
+                elif supply == 'client':
+                    h = U.Holder()
+                    h.__dict__.update(ns)
+                    raw = tmpl(h)
+                else:
+                    raw = tmpl(None, ns)
+            except Exception as e:
+                exc = e
+            self.watch.flush(exc)
+            trace = list(self.trace)
+            pred = U.predict(c, self.order, self.observed_stage(trace), position_only=self.position_only)
+            nontrivial = pred.status == 'out' and (pred.replaced is not None or pred.text != pred.plain)
+            ctx.case(('block', key, wsyn, supply, src, repr(state)), nontrivial)
+            seen = U.build(state[1] if state[0] == 'call' else state) if n == 'len' else None
+            want_model = U.block_expected(n, alt, '[' + pred.text + ']', seen) if pred.status == 'out' else None
+            want_alone = U.block_expected(n, alt, '[' + alone + ']', seen) if isinstance(alone, str) else None
+            if want_model is None and want_alone is None:
+                ctx.count('blocks:not judged (statement silent and the tag alone raises)')
+                continue
+            ctx.count('judged:block')
+            ctx.table('block wrapper', key)
+            ctx.table('block syntax', wsyn)
+            ctx.table('block: namespace given as', supply)
+            ctx.table('block: state of the name', 'call -> ' + kind_of(state[1]) if state[0] == 'call'
+                      else kind_of(state))
+            what = None
+            if exc is not None:
+                what = 'inside a %s block (%s) the tag raised %s: %s' % (
+                    family, key, type(exc).__name__, str(exc)[:100])
+            else:
+                if want_model is not None:
+                    ctx.count('blocks:model comparisons')
+                    if raw not in want_model:
+                        if pred.replaced:
+                            what = 'inside a %s block (%s) the %s= text %r was not inserted: %r' % (
+                                family, key, pred.replaced, pred.text, raw[:120])
+                        else:
+                            what = 'inside a %s block (%s) the output %r differs from the pipeline model %r' % (
+                                family, key, raw[:120], pred.text[:120])
+                if what is None and want_alone is not None:
+                    ctx.count('blocks:comparisons with the tag alone')
+                    if raw not in want_alone:
+                        what = 'inside a %s block (%s) the tag prints %r, alone in a template it prints %r' % (
+                            family, key, raw[:120], alone[:120])
+            if what is not None:
+                vc = dict(c, block=dict(b, states=b['states'][:idx + 1]))
+                ctx.violation(what, vc, key='block_%s_%s' % (family, '_'.join(optnames)[:50] or 'bare'),
+                              detail={'source': src, 'state': repr(state), 'namespace given as': supply,
+                                      'expected': want_model or want_alone, 'observed': raw,
+                                      'tag alone': alone, 'rendered before with': [repr(x) for x in b['states'][:idx]]})
+                continue
+            shown = (want_model or want_alone)[0]
+            if n in ('opt',) and raw == alt and raw != shown:
+                ctx.count('blocks:tag not on the path taken')
+                continue
+            outcome = ('missing' if pred.replaced == 'missing' else 'null' if pred.replaced == 'null'
+                       else 'value') if pred.status == 'out' else 'model silent, equal to the tag alone'
+            ctx.table('block wrapper: ' + outcome, key)
+            ctx.table('block family x outcome', '%s: %s' % (family, outcome))
+            if self.bsamples < 2 and nontrivial and pred.replaced and ctx.shard < 6:
+                self.bsamples += 1
+                ctx.sample({'source': src, 'x': repr(state), 'namespace given as': supply, 'output': raw,
+                            'model': pred.text})
 
     # -- laws -------------------------------------------------------------
     def law_roundtrip(self, s, plus, via):
@@ -1076,6 +1230,130 @@ def part_optcount(env):
             ctx.count('fastform:values x spellings')
 
 
+# ---- the tag inside enclosing blocks: the pipeline is a function of the tag and of the value bound to
+# its name, not of the block the tag stands in, nor of what the template rendered before
+BLOCK_STATES = [['undefined'], ['none'], ['str', ''], ['list', []], ['dict', {}], ['int', 0], ['float', 0.0],
+                ['bool', False], ['decimal', '0.00'], ['falsy'], ['zero'], ['unset'], ['obj'],
+                ['str', 'ab_Cd <1234567> e%41'], ['int', 1234567], ['float', 1234.5], ['list', [1, 2]],
+                ['tuple', [3, 4, 5]], ['tuple', []], ['dict', {'a_b': 1}],
+                ['bytes', 'by_Tes 12'], ['bool', True],
+                ['call', ['str', 'call_Ed %41 <x>']], ['call', ['none']], ['call', ['int', 0]],
+                ['call', ['list', []]], ['call', ['float', 7654321.5]], ['call', ['obj']]]
+BLOCK_TAGS = [
+    [('missing', 'M')],
+    [('missing', 'MISSING'), ('null', 'NULL'), ('upper', None), ('size', '9'), ('etc', '~')],
+    [('null', 'N')],
+    [('null', 'NULL_t'), ('missing', 'gone')],
+    [],
+    [('html_quote', None)],
+    [('missing', '')],
+    [('html_quote', None), ('missing', 'm<i>&')],
+    [('fmt', '%s|'), ('null', '-'), ('missing', '?')],
+    [('spacify', None), ('capitalize', None), ('missing', 'M_m x')],
+    [('size', '4'), ('missing', 'longer than size')],
+    [('missing', None)],
+    [('null', None), ('upper', None)],
+    [('missing', None), ('null', None), ('lower', None)],
+    [('url_quote', None), ('null', 'n/a')],
+    [('thousands_commas', None), ('missing', '0')],
+    [('url', None), ('null', 'N'), ('missing', 'M')],
+    [('fmt', 'collection-length'), ('null', 'none'), ('missing', 'no such')],
+    [('lower', None), ('sql_quote', None), ('newline_to_br', None), ('size', '12')],
+]
+BLOCK_CFMTS = ['s', 's', 'd', '.2f', 's', 'r', '6s']
+BLOCK_SUPPLY = ('mapping', 'kw', 'client')
+HAS_URL = ('obj', 'falsy', 'zero', 'unset', 'undefined')
+
+
+def block_state_ok(opts, state):
+    names = [n for n, v in opts]
+    kind = kind_of(state)
+    inner = kind_of(state[1]) if kind == 'call' else kind
+    if inner == 'bytes' and ('size' in names or set(names) & set(TEXT_ONLY)):
+        return False        # the known finding on undecoded bytes is the business of the other parts
+    if inner == 'bytes' and 'fmt' in names and dict(opts)['fmt'] not in FMT_BY_KIND['bytes']:
+        return False        # same: only the formats the fmt part renders on bytes
+    if 'url' in names and kind not in HAS_URL:
+        return False
+    return True
+
+
+def block_tags(ctx):
+    """The tags rendered inside the blocks: the fixed list; in the thorough tier also the whole
+    missing= / null= grid of part_nullmissing and seeded random tags."""
+    tags = [list(t) for t in BLOCK_TAGS]
+    if ctx.tier != 'quick':
+        texts = ['M', '', 'n_a %41 x', '<i>none</i>']
+        extras = [[], [('upper', None)], [('spacify', None), ('url_unquote', None)], [('size', '2')],
+                  [('fmt', 'upper')], [('fmt', '%d'), ('thousands_commas', None)],
+                  [('lower', None), ('size', '1'), ('etc', '!')]]
+        for t in texts:
+            for e in extras:
+                tags.append([('missing', t)] + e)
+                tags.append(e + [('null', t + '.'), ('missing', t)])
+                tags.append([('null', t)] + e)
+    return tags
+
+
+def part_blocks(env):
+    """One dtml-var tag inside every kind of enclosing block (if / elif / else / unless on the same
+    name, on other names, on expressions, nested; in; with; let; try body / handler / else; a template
+    called by name), in the dtml, ssi and %(if x)[ syntaxes, the namespace given as a mapping, as
+    keywords, as a client object; each compiled template rendered over the whole sequence of states of
+    the name (undefined, None, every kind of false / null / zero value, values, callables returning
+    them) in a seeded order."""
+    ctx = env.ctx
+    tags = block_tags(ctx)
+    i = 0
+    for ti, opts in enumerate(tags):
+        for wi, key in enumerate(U.BLOCK_KEYS):
+            for si, wsyn in enumerate(U.BLOCK_SYNTAXES):
+                i += 1
+                if i % ctx.nshards != ctx.shard:
+                    continue
+                k = i // ctx.nshards
+                if wsyn == 'epfs':
+                    sp = dict(EPFS_SPELLINGS[(ti + wi) % len(EPFS_SPELLINGS)], syntax='epfs',
+                              cfmt=BLOCK_CFMTS[(ti + wi + k) % len(BLOCK_CFMTS)])
+                else:
+                    sp = dict(HTML_SPELLINGS[(ti + wi + si) % len(HTML_SPELLINGS)])
+                    if ti < len(BLOCK_TAGS) and (wi + ti) % 3:
+                        sp = dict(HTML_SPELLINGS[(wi + si) % 4])      # mostly the plain-name spellings
+                case = mkcase(['undefined'], opts, quote=bool(k % 2), varname='x', **sp)
+                states = [st for st in BLOCK_STATES if block_state_ok(opts, st)]
+                ctx.rng.shuffle(states)
+                # the name undefined at the start, in the middle and at the end of the history as well
+                for pos in (0, len(states) // 2, len(states) + 1):
+                    states.insert(min(pos + ctx.rng.randrange(3), len(states)), ['undefined'])
+                case['block'] = {'wrap': key, 'wsyntax': wsyn, 'supply': BLOCK_SUPPLY[(k + ti) % 3],
+                                 'states': states}
+                env.block_history(case)
+    if ctx.tier == 'quick':
+        return
+    # seeded random tags in seeded wrappers
+    rng = ctx.rng
+    for _ in range(120000 // ctx.nshards):
+        c = random_case(rng)
+        if kind_of(c['value']) == 'bytes':
+            continue
+        opts = [tuple(o) for o in c['opts']]
+        if 'missing' not in dict(opts) and rng.random() < 0.5:
+            opts.insert(rng.randrange(len(opts) + 1), ('missing', rng.choice(['M', '', 'gone_%41'])))
+        if 'null' not in dict(opts) and rng.random() < 0.3:
+            opts.insert(rng.randrange(len(opts) + 1), ('null', rng.choice(['N', '', 'n_a'])))
+        wsyn = 'epfs' if c['syntax'] == 'epfs' else rng.choice(('dtml', 'ssi'))
+        kw = dict((k, c[k]) for k in ('quote', 'name_attr', 'bare_expr', 'var_prefix') if k in c)
+        case = mkcase(['undefined'], opts, syntax=c['syntax'], form=c['form'], cfmt=c['cfmt'], varname='x', **kw)
+        own = [c['value'], ['call', c['value']]] if c['value'][0] != 'undefined' else []
+        pool = [st for st in BLOCK_STATES + own if block_state_ok(opts, st)]
+        states = rng.sample(pool, min(len(pool), 6)) + [['undefined']]
+        rng.shuffle(states)
+        case['block'] = {'wrap': rng.choice(U.BLOCK_KEYS), 'wsyntax': wsyn, 'supply': rng.choice(BLOCK_SUPPLY),
+                         'states': states}
+        env.block_history(case)
+        ctx.count('blocks:random histories')
+
+
 def part_laws(env):
     ctx = env.ctx
     rng = ctx.rng
@@ -1155,7 +1433,7 @@ def part_random(env):
 
 
 PARTS = [part_pairs, part_subsets, part_orders, part_fmt, part_size, part_nullmissing, part_nulltower,
-         part_optcount, part_laws, part_url, part_random]
+         part_optcount, part_laws, part_url, part_random, part_blocks]
 
 
 def watch_anchors(reach):
@@ -1215,9 +1493,36 @@ def finish(agg):
               'judged:size', 'judged:fmt', 'judged:cformat', 'judged:fmt+cformat', 'judged:url',
               'judged:random', 'model:self-check evaluations',
               'judged:nulltower', 'judged:nulltower-valueless', 'judged:missing-unused-false',
-              'judged:optcount-cformat', 'judged:optcount-html', 'judged:fastform'):
+              'judged:optcount-cformat', 'judged:optcount-html', 'judged:fastform',
+              'judged:block', 'judged:block-standalone', 'blocks:model comparisons',
+              'blocks:comparisons with the tag alone'):
         if not c.get(k):
             inc.append('deciding monitor never evaluated: ' + k)
+    # the tag inside enclosing blocks: every wrapper must have shown the three outcomes of the pipeline head
+    for key in U.BLOCK_KEYS:
+        n, needs = U.block_info(key)[2], U.block_info(key)[4]
+        for outcome in ('missing', 'null', 'value'):
+            if outcome == 'missing' and needs:
+                continue        # the wrapper itself reads the name: there is no render with the name undefined
+            if outcome != 'value' and n == 'opt':
+                continue        # the tag stands in one branch only: which values reach it is not fixed here
+            if not t.get('block wrapper: ' + outcome, {}).get(key):
+                inc.append('enclosing block %s: no judged render with the outcome %r' % (key, outcome))
+    for syn in U.BLOCK_SYNTAXES:
+        if not t.get('block syntax', {}).get(syn):
+            inc.append('enclosing blocks never written in the %s syntax' % syn)
+    for sup in BLOCK_SUPPLY:
+        if not t.get('block: namespace given as', {}).get(sup):
+            inc.append('enclosing blocks never rendered with the namespace given as ' + sup)
+    for st in BLOCK_STATES:
+        lab = 'call -> ' + kind_of(st[1]) if st[0] == 'call' else kind_of(st)
+        if not t.get('block: state of the name', {}).get(lab):
+            inc.append('enclosing blocks never rendered with the name in the state ' + lab)
+    import os
+    if os.environ.get('VERIF_DEBUG'):
+        for name in sorted(t):
+            if name.startswith('block'):
+                print('  TABLE %s: %s' % (name, ', '.join('%s=%d' % kv for kv in sorted(t[name].items()))))
     for r in ('Var.__init__', 'Var.render', 'DT_Var.url_quote', 'DT_Var.url_quote_plus',
               'DT_Var.url_unquote', 'DT_Var.url_unquote_plus', 'DT_Var.newline_to_br',
               'DT_Var.thousands_commas', 'DT_Var.sql_quote', 'DT_Var.lower', 'DT_Var.upper',
@@ -1270,6 +1575,9 @@ def _replay(ctx, env, rep):
     c = rep['case']
     if c.get('law') == 'roundtrip':
         env.law_roundtrip(c['s'], c['plus'], c['via'])
+        return
+    if c.get('block'):
+        env.block_history(c)
         return
     env.evaluate(c, 'replay')
     # an order-law report: also render the canonical written order and compare
